@@ -17,6 +17,11 @@ U push <ev>                     ev = short | to | io | d:<id>:bad | d:<id>:<q>:<
 U fwd <orig> <dot 0|1> <writeOk 0|1>
     -> out=<...> kept=<0|1> reads=<n> gen=<n> left=<n>
 
+P reset <always|released>
+P start <w> <c> <id> <slot> | P recv <c> <id> <tag> | P closeswap <c> <id> | P set <slot> | P take <w>
+P cancel <w> | P writefail <w> | P close <c> | P leave <w> | P alloc <next> <used ids>
+    -> see handleP
+
 C reset <check 0|1> <client>*                    client = id:name:spell:qtype:scope:route(f|r)
 C arrive <i> | C refuse <i> | C wake <i> | C evict <name> <qtype> <scope>
 C resolve <f> <udp|tcp|tcpudp> <att> <att>       att = fail | m:<id>:<q>:<resp>:<rcode>:<tc>:<ans>, q = - | name.spell.qtype
@@ -31,6 +36,8 @@ structure DSt where
   u : Udp.Sock := ⟨[], 0, false⟩
   ccfg : Ctl.Cfg := Ctl.codeCfg
   c : Ctl.St := Ctl.init []
+  ppol : Pipe.Recycle := Pipe.codePolicy
+  p : Pipe.St := Pipe.init
 
 def b01 (b : Bool) : String := if b then "1" else "0"
 def p01 (s : String) : Bool := s == "1"
@@ -218,11 +225,86 @@ def handleC (d : DSt) : List String → DSt × String
     | _, _, _, _ => (d, "bad-op")
   | _ => (d, "bad-op")
 
+/-! ### Pipe -/
+def pMsgStr (m : Pipe.Msg) : String := s!"msg:{m.id}.{m.tag}.{m.conn}"
+def pValStr : Option Pipe.Msg → String
+  | some m => pMsgStr m
+  | none => "nil"
+def pResStr : Pipe.Res → String
+  | .msg m => pMsgStr m | .eof => "eof" | .ctxErr => "ctx" | .writeErr => "write-err"
+def pPcStr : Pipe.WPc → String
+  | .idle => "idle" | .waiting c id s => s!"waiting:{c}.{id}.{s}"
+  | .leaving c id s r res => s!"leaving:{c}.{id}.{s}.{b01 r}.{pResStr res}" | .done r => s!"done:{pResStr r}"
+
+def handleP (d : DSt) : List String → DSt × String
+  | ["reset", pol] =>
+    ({ d with ppol := if pol == "always" then .always else .whenReleased, p := Pipe.init }, "ok")
+  | ["start", w, c, id, sl] =>
+    match w.toNat?, c.toNat?, id.toNat?, sl.toNat? with
+    | some w, some c, some id, some sl =>
+      let p := Pipe.step d.ppol d.p (.start w c id sl)
+      ({ d with p := p }, if p.pc w == .waiting c id sl && d.p.pc w == .idle then "ok" else
+        s!"disabled:free={b01 (d.p.free sl)},alloc={b01 (d.p.alloc c id)},pc={pPcStr (d.p.pc w)}")
+    | _, _, _, _ => (d, "bad-op")
+  | ["recv", c, id, tag] =>
+    match c.toNat?, id.toNat?, tag.toNat? with
+    | some c, some id, some tag =>
+      let held := if d.p.closed c then none else d.p.pending c id
+      let p := Pipe.step d.ppol d.p (.recvSwap c id tag)
+      ({ d with p := p }, match held with | some sl => s!"held={sl}" | none => "held=-")
+    | _, _, _ => (d, "bad-op")
+  | ["closeswap", c, id] =>
+    match c.toNat?, id.toNat? with
+    | some c, some id =>
+      let held := if d.p.closed c then d.p.pending c id else none
+      let p := Pipe.step d.ppol d.p (.closeSwap c id)
+      ({ d with p := p }, match held with | some sl => s!"held={sl}" | none => "held=-")
+    | _, _ => (d, "bad-op")
+  | ["set", sl] =>
+    match sl.toNat? with
+    | some sl =>
+      let p := Pipe.step d.ppol d.p (.set sl)
+      ({ d with p := p }, match p.box sl with | some v => s!"box={pValStr v}" | none => "box=none")
+    | none => (d, "bad-op")
+  | ["take", w] =>
+    match w.toNat? with
+    | some w =>
+      let p := Pipe.step d.ppol d.p (.take w)
+      let got := if p.log.length > d.p.log.length then
+          (match p.log.getLast? with | some (_, _, _, v) => pValStr v | none => "-") else "-"
+      ({ d with p := p }, s!"got={got}")
+    | none => (d, "bad-op")
+  | ["cancel", w] =>
+    match w.toNat? with
+    | some w => let p := Pipe.step d.ppol d.p (.cancel w); ({ d with p := p }, s!"pc={pPcStr (p.pc w)}")
+    | none => (d, "bad-op")
+  | ["writefail", w] =>
+    match w.toNat? with
+    | some w => let p := Pipe.step d.ppol d.p (.writeFail w); ({ d with p := p }, s!"pc={pPcStr (p.pc w)}")
+    | none => (d, "bad-op")
+  | ["close", c] =>
+    match c.toNat? with
+    | some c => let p := Pipe.step d.ppol d.p (.connClose c); ({ d with p := p }, s!"closed={b01 (p.closed c)}")
+    | none => (d, "bad-op")
+  | ["leave", w] =>
+    match w.toNat? with
+    | some w => let p := Pipe.step d.ppol d.p (.leave w); ({ d with p := p }, s!"pc={pPcStr (p.pc w)}")
+    | none => (d, "bad-op")
+  | ["alloc", next, used] =>
+    -- used = comma separated allocated ids (or -)
+    match next.toNat? with
+    | some next =>
+      let ids := if used == "-" then [] else (used.splitOn ",").filterMap String.toNat?
+      (d, match Pipe.allocate (fun i => ids.contains i) next with | some id => s!"id={id}" | none => "id=none")
+    | none => (d, "bad-op")
+  | _ => (d, "bad-op")
+
 def handle (d : DSt) (line : String) : DSt × String :=
   match words line with
   | "F" :: rest => handleF d rest
   | "U" :: rest => handleU d rest
   | "C" :: rest => handleC d rest
+  | "P" :: rest => handleP d rest
   | _ => (d, "bad-op")
 
 def main : IO Unit := lineLoopS ({} : DSt) handle
